@@ -32,6 +32,23 @@ class Family:
     def __init__(self, alg, count, a, b):
         self.alg, self.count, self.a, self.b = alg, count, a, b
 
+    def _fd_getitem(self, idx, interp):
+        """table[:m] / table[k:]: a prefix / suffix of the table.  numpy TRUNCATES a slice that runs past the end silently: the
+        prefix [:m] of a table with `count` entries has min(m, count) entries -- m entries only when m <= count for every grid"""
+        A = self.alg
+        if isinstance(idx, slice) and idx.step is None and idx.start is None and idx.stop is not None:
+            m = interp.lift(idx.stop)
+            if A.equal(m, self.count):
+                return self
+            d = A.sub(self.count, m)
+            if A.sign(d) in ("+", ">=0"):
+                return Family(A, m, self.a, self.b)
+            e = AnalysisError("prefix [:%s] of an index table of %s entries" % (A.show(m), A.show(self.count)))
+            e.violation = ("SLICE-TRUNC", getattr(interp, "_cur_qual", "index table"), "the prefix `[:%s]` is taken of an index table with %s entries: numpy truncates a slice that runs past the end WITHOUT an error, so on a grid where %s > %s the table silently has fewer entries than the boundary has faces (the missing faces are never given a boundary state)" % (A.show(m), A.show(self.count), A.show(m), A.show(self.count)),
+                           "slice-trunc", {"C20", "C15", "C14", "C01", "C03", "C16", "C11", "C13"})
+            raise e
+        raise AnalysisError("unsupported subscript of an index table")
+
     def _fd_binop(self, op, other, reflected, interp):
         A = self.alg
         o = interp.lift(other)
